@@ -118,6 +118,44 @@ def statements(name: str, path: Path, ispkg: bool) -> list[tuple]:
     return out
 
 
+def registrations(path: Path) -> list[str]:
+    """names a module registers when its body runs: `register_class(X, "Name")` calls at top level, loops
+    `for name, cls in D.items(): register_class(cls, name)` over a module-level dictionary literal D (its string keys),
+    and `@register("Name")` / `@register()` decorators on top-level classes"""
+    tree = ast.parse(path.read_text(), filename=str(path))
+    dicts: dict[str, list[str]] = {}
+    out: list[str] = []
+
+    def callee(c: ast.Call) -> str:
+        f = c.func
+        return f.id if isinstance(f, ast.Name) else f.attr if isinstance(f, ast.Attribute) else ""
+
+    for s in tree.body:
+        tgt = None
+        val = None
+        if isinstance(s, ast.Assign) and len(s.targets) == 1 and isinstance(s.targets[0], ast.Name):
+            tgt, val = s.targets[0].id, s.value
+        elif isinstance(s, ast.AnnAssign) and isinstance(s.target, ast.Name) and s.value is not None:
+            tgt, val = s.target.id, s.value
+        if tgt and isinstance(val, ast.Dict):
+            dicts[tgt] = [k.value for k in val.keys if isinstance(k, ast.Constant) and isinstance(k.value, str)]
+        if isinstance(s, ast.Expr) and isinstance(s.value, ast.Call) and callee(s.value) == "register_class":
+            a = s.value.args
+            if len(a) >= 2 and isinstance(a[1], ast.Constant):
+                out.append(str(a[1].value))
+            elif len(a) == 1 and isinstance(a[0], ast.Name):
+                out.append(a[0].id)
+        if isinstance(s, ast.For) and isinstance(s.iter, ast.Call) and isinstance(s.iter.func, ast.Attribute) \
+                and s.iter.func.attr == "items" and isinstance(s.iter.func.value, ast.Name):
+            if any(isinstance(n, ast.Call) and callee(n) == "register_class" for b in s.body for n in ast.walk(b)):
+                out.extend(dicts.get(s.iter.func.value.id, []))
+        if isinstance(s, ast.ClassDef):
+            for d in s.decorator_list:
+                if isinstance(d, ast.Call) and callee(d) == "register":
+                    out.append(str(d.args[0].value) if d.args and isinstance(d.args[0], ast.Constant) else s.name)
+    return out
+
+
 def is_public(name: str) -> bool:
     return not any(part.startswith("_") for part in name.split("."))
 
@@ -173,8 +211,11 @@ def build(root: Path) -> dict:
         graph.append({"name": n, "parent": (mid[parent], iid[n.rpartition(".")[2]]) if parent in mid else None,
                       "body": body, "ispkg": mods[n][1]})
     public = [mid[n] for n in names if is_public(n)]
+    regs = {n: registrations(mods[n][0]) for n in names}
+    regnames = sorted({x for v in regs.values() for x in v})
     return {"names": names, "idents": identl, "graph": graph, "public": public,
-            "chains": [chain(n) for n in names]}
+            "chains": [chain(n) for n in names], "regnames": regnames,
+            "registers": [[regnames.index(x) for x in regs[n]] for n in names]}
 
 
 def lean_opt(x) -> str:
@@ -233,6 +274,16 @@ def render(data: dict) -> str:
     L.append("")
     L.append("/-- every module whose dotted name has no component starting with `_` (packages included) -/")
     L.append(f"def publicModules : List Nat := {lean_list(data['public'])}")
+    L.append("")
+    L.append("/-- names that appear in a registration statement (`register_class`, `@register`) anywhere in the package -/")
+    L.append("def registeredNames : List String := [")
+    L.append(",\n".join(f'  "{n}"' for n in data["regnames"]))
+    L.append("]")
+    L.append("")
+    L.append("/-- per module: the names (indices into `registeredNames`) its body registers -/")
+    L.append("def registers : List (List Nat) := [")
+    L.append(",\n".join(f"  {lean_list(r)}" for r in data["registers"]))
+    L.append("]")
     L.append("")
     L.append("end QGen")
     return "\n".join(L) + "\n"
